@@ -4,6 +4,7 @@
   are C03's `cfgStep`.
 -/
 import Logg.Model.Tree
+import Logg.Lemmas.TreeLinks
 
 namespace Logg.Props.C10
 open Logg
@@ -244,6 +245,47 @@ theorem root_is_parentless (t : Tree) (h : ParentsEarlier t) (fuel i : Nat) (hf 
     | some p =>
       have hlt := h i _ hn p hp
       exact ih p (by omega) (by omega)
+
+/-- (9) After any history the link structure is well formed: parents are earlier, a child listed under a
+    logger has that logger as its parent, a logger with a parent is listed there, and exactly once. -/
+theorem links_wellformed_after_history (ops : List TreeOp) : WF (linkTab (treeRun [] ops)) :=
+  wf_run ops [] wf_nil
+
+/-- (10) **`Each` agrees with the creation history.** After any history, `Each` on logger i (with as much
+    fuel as there are loggers) reports a logger j at depth d if and only if following j's parent link d
+    times leads to i — the receiver itself at depth 0, its children at depth 1, … — and reports no
+    logger twice. -/
+theorem each_agrees_with_history (ops : List TreeOp) (i : Nat) :
+    let t := treeRun [] ops
+    (∀ j d, (j, d) ∈ eachOf t t.length i 0 ↔ climb (linkTab t) d j = some i) ∧
+      ((eachOf t t.length i 0).map (·.1)).Nodup := by
+  intro t
+  have h := links_wellformed_after_history ops
+  have hl : (linkTab t).length = t.length := by simp [linkTab]
+  have := eachL_spec (linkTab t) h i
+  rw [hl] at this
+  simpa only [eachOf_eq] using this
+
+/-- (11) **`Sublogger(name)` agrees with the creation history.** After any history, what it returns
+    carries that name and is the receiver or a logger below it; and if it returns nothing, no logger
+    that `Each` reports below the receiver carries the name. -/
+theorem sublogger_agrees_with_history (ops : List TreeOp) (i : Nat) (nm : Bytes) :
+    let t := treeRun [] ops
+    (∀ j, subloggerOf t t.length i nm = some j → hasName t j nm ∧ ∃ k, climb (linkTab t) k j = some i) ∧
+    (subloggerOf t t.length i nm = none → ∀ j d, (j, d) ∈ eachOf t t.length i 0 → ¬ hasName t j nm) := by
+  intro t
+  exact ⟨fun j hs => sublogger_sound t (links_wellformed_after_history ops) nm _ i j hs,
+         fun hs => sublogger_none t nm _ i 0 hs⟩
+
+/-- one parent link is one climbing step -/
+theorem climb_one_is_parent (t : Tree) (j : Nat) (n : Node) (h : t[j]? = some n) : climb (linkTab t) 1 j = n.parent := by
+  simp only [climb, linkTab_get t j n h, linksOf]
+  cases n.parent <;> rfl
+
+-- non-vacuity: Each on a root with a child and a grandchild
+example :
+    let t := treeRun [] [.newRoot [114] 3 [], .newChild 0 [97] [97] [], .newChild 1 [98] [98] [], .newChild 0 [99] [99] []]
+    eachOf t t.length 0 0 = [(0, 0), (1, 1), (2, 2), (3, 1)] ∧ climb (linkTab t) 2 2 = some 0 := by decide
 
 -- non-vacuity: a root, a named child (created once, found the second time), a With-child
 example :
